@@ -2,6 +2,7 @@ import NeumannModel.Raft.Lemmas
 import NeumannModel.Raft.Safety
 import NeumannModel.Raft.LogMatch
 import NeumannModel.Raft.Commit
+import NeumannModel.Raft.LeaderCompleteness
 /-
   C01 — property theorems.
   Part 1: handler-level facts (for every node state and message).
@@ -180,6 +181,23 @@ theorem match_index_sound (c : Config) (steps : List Step) (i : Nat) (nd : Node)
 theorem log_terms_bounded (c : Config) (steps : List Step) (i : Nat) (nd : Node)
     (hnd : (run c (initSys c) steps).nodes[i]? = some nd) : ∀ e ∈ nd.log, e.term ≤ nd.term :=
   (cinv_run c _ steps (inv_init c) (lm_init c) (cinv_init c)).nodeTermBound i nd hnd
+
+/-- **Leader Completeness**: in every reachable state, if the first `N` entries of the log of
+    term `T`'s leader are acknowledged by a quorum (success responses covering `N`, the leader
+    itself counting as one) and entry `N` is of term `T` — exactly the leader's commit rule —
+    then EVERY election ever won in a later term was won by a node whose log, at that moment,
+    started with those `N` entries. (Invariants: `Raft/Complete.lean`, `Raft/Complete2.lean`;
+    the argument by strong induction on the later term: `Raft/LeaderCompleteness.lean`.) -/
+theorem leader_completeness (c : Config) (steps : List Step) (T N : Nat)
+    (hD : Durable c (run c (initSys c) steps) T N) (U j : Nat) (vs : List Nat)
+    (hU : (U, j, vs) ∈ (run c (initSys c) steps).elected) (hTU : T < U) :
+    ((run c (initSys c) steps).elog U).take N = ((run c (initSys c) steps).canon T).take N := by
+  have hI := inv_run c _ steps (inv_init c)
+  have hL := lm_run c _ steps (inv_init c) (lm_init c)
+  have hC := cinv_run c _ steps (inv_init c) (lm_init c) (cinv_init c)
+  have hE := einv_run c _ steps (inv_init c) (lm_init c) (cinv_init c) (einv_init c)
+  have hF := finv_run c _ steps (inv_init c) (lm_init c) (cinv_init c) (einv_init c) (finv_init c)
+  exact leader_completeness_of_inv c _ hI hL hC hE hF T N hD U j vs hU hTU
 
 /-- no two nodes ever report different entries committed at one position -/
 def StateMachineSafety (s : Sys) : Prop :=
